@@ -205,6 +205,8 @@ def run(ctx: Context) -> None:
     _infra.cf_grid_names(ctx, 'R01.9')
     # grid_dimensions of a CF grid is [y_dimension, x_dimension]: both are read off the coordinate the grid order follows
     _infra.cf_grid_dimensions(ctx, 'R01.2')
+    _infra.none_default_discipline(ctx, 'R01.9', ['emsarray.conventions.grid.CFGrid.__init__', 'emsarray.conventions.grid.CFGridTopology.__init__',
+                                                  'emsarray.conventions.arakawa_c.ArakawaC.__init__'])
     _infra.passes_parameters_on(ctx, 'R01.11', 'emsarray.conventions._base.Convention.unravel_index', "unravel_index stands for wind_index")
     ctx.assume("numpy.ravel_multi_index / unravel_index with equal shape, order='C', mode='raise' are mutually inverse on [0, prod(shape)) and raise outside it")
     ctx.assume("xarray Dataset.sizes reports the dimension lengths of the file")
@@ -581,6 +583,9 @@ _A = 'src/emsarray/conventions/arakawa_c.py'
 _U = 'src/emsarray/conventions/ugrid.py'
 _G = 'src/emsarray/conventions/grid.py'
 VARIANTS = [
+    V('C01', 'given-latitude-name-not-stored', 'src/emsarray/conventions/grid.py', "        if latitude is not None:\n            self.latitude_name = latitude\n", "        if latitude is None:\n            self.latitude_name = latitude\n", 'R01.9'),
+    V('C01', 'given-longitude-name-ignored', 'src/emsarray/conventions/grid.py', "        if longitude is not None:\n            self.longitude_name = longitude\n", "        if longitude is not None:\n            pass\n", 'R01.9'),
+    V('C01', 'hand-built-arakawa-names-ignored', 'src/emsarray/conventions/arakawa_c.py', "        if coordinate_names is not None:", "        if coordinate_names is None:", 'R01.9'),
     V('C01', 'shoc-simple-longitude-not-handed-on', 'src/emsarray/conventions/shoc.py', "        return CFGrid2DTopology(self.dataset, latitude=latitude, longitude=longitude)", "        return CFGrid2DTopology(self.dataset, latitude=latitude)", 'R01.2'),
     V('C01', 'shoc-simple-names-exchanged', 'src/emsarray/conventions/shoc.py', "        return CFGrid2DTopology(self.dataset, latitude=latitude, longitude=longitude)", "        return CFGrid2DTopology(self.dataset, latitude=longitude, longitude=latitude)", 'R01.2'),
     V('C01', 'benign-shoc-simple-positional', 'src/emsarray/conventions/shoc.py', "        return CFGrid2DTopology(self.dataset, latitude=latitude, longitude=longitude)", "        return CFGrid2DTopology(self.dataset, longitude, latitude)", None),
